@@ -79,7 +79,20 @@ struct Plan {
     bool edge = false;       // include edge-case classes in the preamble
     bool dtorErr = false;    // allow T_E_DTOR_ERR
     bool qcycle = false;     // allow T_QCYCLE (classes QP/QL in the preamble)
+    int speculative = -1;    // >= 0: one of the fixed programs the pinned analyser rejects (skipped unless accepted)
 };
+
+// Programs the pinned analyser rejects but a more permissive one might accept: if accepted they must still
+// not crash the interpreter (C12). Methods named like built-in gates, called unqualified with fewer arguments.
+inline std::string speculativeSource(int v) {
+    switch (v % 4) {
+        case 0: return "class G { public qubit q; public constructor() -> G = default;\n  public function x() -> void { echo(\"G.x\"); }\n  public function go() -> void { x(); echo(\"after\"); } }\nfunction main() -> void { G g = new G(); g.go(); echo(\"end\"); }\n";
+        case 1: return "class G { public constructor() -> G = default;\n  public function cx(int k) -> int { return k + 1; }\n  public function go() -> void { echo(cx(1)); } }\nfunction main() -> void { G g = new G(); g.go(); echo(\"end\"); }\n";
+        case 2: return "static class S { public static function rz() -> int { return 7; }\n  public static function go() -> int { return rz(); } }\nfunction main() -> void { echo(S.go()); echo(\"end\"); }\n";
+        default: return "class G { public qubit q; public constructor() -> G = default;\n  public function ry(qubit p) -> void { h(p); }\n  public function go() -> void { ry(this.q); measure this.q; } }\nfunction main() -> void { G g = new G(); g.go(); echo(\"end\"); }\n";
+    }
+}
+struct PlanFwd;
 
 inline std::string preamble(const Plan& p) {
     std::string s;
@@ -259,7 +272,9 @@ inline std::string renderStmt(const Plan& p, const Stmt& st, int index) {
         case T_E_INT_EXTREME:
             return "    int ie" + I(index) + " = 2147483647;\n    long le" + I(index) + " = 9223372036854775807L;\n    echo(ie" + I(index) + " - 1);\n    echo(le" + I(index) + " - 1L);\n    echo(ie" + I(index) + " / 3);\n    float fe" + I(index) + " = 1.5f;\n    echo(fe" + I(index) +
                    " * 2.0f);\n";
-        case T_E_LITERAL_RANGE: return st.a % 2 ? "    int lr" + I(index) + " = 99999999999;\n    echo(lr" + I(index) + ");\n" : "    float lf" + I(index) + " = 99999999999999999999999999999999999999999999.0f;\n    echo(lf" + I(index) + ");\n";
+        case T_E_LITERAL_RANGE:
+            if (st.a % 3 == 2) return "    int lh" + I(index) + " = 18446744073709551999;\n    echo(lh" + I(index) + ");\n";
+            return st.a % 2 ? "    int lr" + I(index) + " = 99999999999;\n    echo(lr" + I(index) + ");\n" : "    float lf" + I(index) + " = 99999999999999999999999999999999999999999999.0f;\n    echo(lf" + I(index) + ");\n";
         case T_E_CAST: return "    long cl" + I(index) + " = 4294967296L + 7L;\n    echo((int) cl" + I(index) + ");\n    echo((bit) 2);\n    echo((float) 3);\n";
         case T_E_NEG_ARRAY: return "    final int an" + I(index) + " = " + I((st.a % 3)) + ";\n    int[an" + I(index) + "] arr" + I(index) + ";\n    echo(arr" + I(index) + ");\n";
         case T_E_DESTROY_TWICE: return "    N dt" + I(index) + " = mk(" + I(id) + ");\n    destroy dt" + I(index) + ";\n    destroy dt" + I(index) + ";\n    N dn" + I(index) + " = null;\n    destroy dn" + I(index) + ";\n";
@@ -271,6 +286,7 @@ inline std::string renderStmt(const Plan& p, const Stmt& st, int index) {
 }
 
 inline std::string render(const Plan& p) {
+    if (p.speculative >= 0) return speculativeSource(p.speculative);
     std::string s = preamble(p);
     s += "function main() -> void {\n";
     for (int i = 0; i < p.nVars; ++i) s += "    N " + var(i) + " = null;\n";
@@ -285,7 +301,7 @@ inline sim::Json toJson(const Plan& p) {
     sim::Json j = sim::Json::object();
     sim::Json m = sim::Json::array();
     for (auto& st : p.main) m.push(sim::Json::object().set("tpl", tplName(st.tpl)).set("t", st.tpl).set("a", st.a).set("b", st.b).set("c", st.c));
-    j.set("main", m).set("nVars", p.nVars).set("edge", p.edge).set("dtorErr", p.dtorErr).set("qcycle", p.qcycle);
+    j.set("main", m).set("nVars", p.nVars).set("edge", p.edge).set("dtorErr", p.dtorErr).set("qcycle", p.qcycle).set("speculative", p.speculative);
     return j;
 }
 inline Plan fromJson(const sim::Json& j) {
@@ -294,6 +310,7 @@ inline Plan fromJson(const sim::Json& j) {
     p.edge = j.at("edge").asBool();
     p.dtorErr = j.at("dtorErr").asBool();
     p.qcycle = j.at("qcycle").asBool();
+    p.speculative = (int)j.at("speculative").asInt(-1);
     for (auto& e : j.at("main").a) p.main.push_back({(int)e.at("t").asInt(), (int)e.at("a").asInt(), (int)e.at("b").asInt(), (int)e.at("c").asInt()});
     return p;
 }
